@@ -21,7 +21,7 @@ import (
 func TestVerifC12(t *testing.T) {
 	vfMain(t, vfCheck{
 		ID: "C12", Level: "exploration",
-		Rule:        "even units: seeded sequences (25-60 calls) of Read/Write/ReadAt/WriteAt/Seek (all whence values incl. invalid, negative results)/ReadFrom/WriteTo/Truncate/Stat with lengths around P and P*C, stepped against a sequential (offset, content) model under every combination of UseConcurrentReads x UseConcurrentWrites x UseFstat, both servers; after EVERY call Seek(0,SeekCurrent) must equal the model offset. Then Close and every method must return os.ErrClosed. Odd units: Close racing 2-8 goroutines looping over ReadAt/WriteAt/Stat/Truncate/Chmod through a reorder proxy with delays; a tap on the client->server stream checks exactly one CLOSE per handle and no packet carrying the handle after it. A class is (call kind, option set, length class) resp. (race shape).",
+		Rule:        "even units: seeded sequences (25-60 calls) of Read/Write/ReadAt/WriteAt/Seek (all whence values incl. invalid, negative results)/ReadFrom/WriteTo/Truncate/Stat with lengths around P and P*C, stepped against a sequential (offset, content) model under every combination of UseConcurrentReads x UseConcurrentWrites x UseFstat, both servers; after EVERY call Seek(0,SeekCurrent) must equal the model offset. One os-served file per unit is renamed away under the open File (a decoy takes the name): the File follows the open file. Then Close (on the request server also answered with PERMISSION_DENIED / NO_SUCH_FILE / EOF / FAILURE, and once per unit on an already lost connection) and every method must return os.ErrClosed. Odd units: Close racing 2-8 goroutines looping over ReadAt/WriteAt/Stat/Truncate/Chmod through a reorder proxy with delays; a tap on the client->server stream checks exactly one CLOSE per handle and no packet carrying the handle after it. A class is (call kind, option set, length class) resp. (race shape).",
 		Assumptions: []string{"(n>0, io.EOF) and (n>0, nil) are the same outcome for Read (io.Reader allows both)", "race detector on"},
 		Units: func(tier vfTier, seed uint64) int {
 			if tier == vfThorough {
@@ -102,6 +102,26 @@ func c12Sequences(u *vfUnit) {
 		if err != nil {
 			u.Violation("open-failed", cfgLabel+": "+err.Error(), nil)
 			return
+		}
+		if kind == vfOS && fi == 2 {
+			// like an os.File, the File follows the open file, not its name: the file is moved away
+			// behind the server's back and a decoy of another size takes over the name
+			os.Rename(p, p+".moved")
+			os.WriteFile(p, []byte("decoy"), 0o644)
+			p += ".moved"
+			u.Count("files_renamed_while_open", 1)
+		}
+		// on the request server three of the four files fail their CLOSE with a status of their own
+		var closeErr error
+		if kind == vfRS && fi > 0 {
+			closeErr = []error{nil, os.ErrPermission, os.ErrNotExist, io.EOF, errors.New("close failed 77")}[1+(fi-1+i)%4]
+			ce, cp := closeErr, p
+			store.CloseErr = func(path string) error {
+				if path == cp {
+					return ce
+				}
+				return nil
+			}
 		}
 		lens := []int{0, 1, P - 1, P, P + 1, 2*P + 1, P * C, P*C + 1, 2*P*C + 3}
 		var history []string
@@ -286,7 +306,7 @@ func c12Sequences(u *vfUnit) {
 			u.Violation("content-after-sequence", fmt.Sprintf("%s: after the call sequence the served file (%d bytes) differs from the model (%d bytes) at %d", cfgLabel, len(got), len(m.data), vfFirstDiff(got, m.data)), map[string]any{"history": history})
 		}
 		// closed state
-		c12Closed(u, sess, f, cfgLabel)
+		c12Closed(u, sess, f, cfgLabel, closeErr != nil)
 		if fi == 0 {
 			u.Sample(map[string]any{"config": cfgLabel, "calls": history[:min(len(history), 10)]})
 		}
@@ -294,6 +314,61 @@ func c12Sequences(u *vfUnit) {
 	if msg := sess.Close(); msg != "" {
 		u.Violation("session-close", msg, nil)
 	}
+	c12CloseOnLostConnection(u, sc, cfgLabel, dir, store)
+}
+
+// c12CloseOnLostConnection: Close on a File whose connection is already gone reports the loss,
+// and afterwards the File is closed like any other (every method: os.ErrClosed; at most the
+// one CLOSE on the wire).
+func c12CloseOnLostConnection(u *vfUnit, sc vfSrvCfg, cfgLabel, dir string, store *vfStore) {
+	p := "/lost"
+	if sc.Kind == vfOS {
+		p = filepath.Join(dir, "lost")
+		os.WriteFile(p, []byte("0123456789"), 0o644)
+	} else {
+		store.CloseErr = nil
+		store.Put(p, []byte("0123456789"))
+	}
+	sess, err := vfConnect(sc, vfPipeOpts{})
+	if err != nil {
+		u.Inconclusive("connect: %v", err)
+		return
+	}
+	f, err := sess.C.OpenFile(p, os.O_RDWR)
+	if err != nil {
+		u.Violation("open-failed", cfgLabel+": "+err.Error(), nil)
+		sess.Close()
+		return
+	}
+	f.Read(make([]byte, 3))
+	sess.sEnd.ForceClose() // the server side of the transport goes away
+	d := vfGo(func() { sess.C.Wait() })
+	if w, dump := vfAwait(d, 60*time.Second); w != vfDone {
+		if w == vfStuck {
+			u.Violation("wait-after-loss", cfgLabel+": Wait does not return after the connection was lost\n"+vfTrim(dump, 2000), nil)
+		} else {
+			u.Inconclusive("wait after loss: wall-clock cap")
+		}
+		return
+	}
+	label := cfgLabel + "/close-after-connection-loss"
+	handle := f.handle
+	if err := f.Close(); err == nil {
+		u.Violation("close-on-lost-connection-nil", label+": Close returned nil although the CLOSE request cannot have been answered", nil)
+	}
+	u.Count("closes_after_connection_loss", 1)
+	_, e1 := f.Read(make([]byte, 4))
+	_, e2 := f.WriteAt([]byte("x"), 0)
+	_, e3 := f.Seek(0, io.SeekEnd)
+	_, e4 := f.Stat()
+	e5 := f.Close()
+	for k, e := range []error{e1, e2, e3, e4, e5} {
+		u.Count("closed_method_checks", 1)
+		if !errors.Is(e, os.ErrClosed) {
+			u.Violation("closed-file-method-after-loss:"+[]string{"Read", "WriteAt", "Seek", "Stat", "Close"}[k], fmt.Sprintf("%s: %s on the closed File (handle %q) returned %v instead of os.ErrClosed", label, []string{"Read", "WriteAt", "Seek", "Stat", "Close"}[k], handle, e), nil)
+		}
+	}
+	sess.Close()
 }
 
 func c01Class12(v, P, C int) string {
@@ -315,7 +390,7 @@ type c12Opaque struct{ r io.Reader }
 func (o c12Opaque) Read(p []byte) (int, error) { return o.r.Read(p) }
 
 // c12Closed closes f and checks the closed-state clauses.
-func c12Closed(u *vfUnit, sess *vfSession, f *File, label string) {
+func c12Closed(u *vfUnit, sess *vfSession, f *File, label string, closeFails bool) {
 	handle := f.handle
 	var mu sync.Mutex
 	var fr vfFramer
@@ -336,8 +411,15 @@ func c12Closed(u *vfUnit, sess *vfSession, f *File, label string) {
 		}
 	})
 	defer sess.Ctl.Tap(vfC2S, nil)
-	if err := f.Close(); err != nil {
+	if err := f.Close(); err != nil && !closeFails {
 		u.Violation("close-error", fmt.Sprintf("%s: Close returned %v", label, err), nil)
+	} else if closeFails {
+		// the server answered the CLOSE with an error status: the handle is gone all the same
+		label += fmt.Sprintf("/close-answered-with-error(%v)", err)
+		u.Count("closes_answered_with_error", 1)
+		if err == nil {
+			u.Violation("close-error-lost", fmt.Sprintf("%s: the server answered CLOSE with an error status, Close returned nil", label), nil)
+		}
 	}
 	type chk struct {
 		name string
